@@ -176,10 +176,11 @@ PROPS = {
     ),
     "C12": dict(
         theorems=["HC.C12.not_writable", "HC.C12.ro_idempotent", "HC.C12.ro_result", "HC.C12.ro_journal", "HC.C12.ro_both_slots",
-                  "HC.C12.ro_prefix_stores", "HC.C12.slot_full", "HC.C12.header_without_secret"],
+                  "HC.C12.ro_prefix_stores", "HC.C12.slot_full", "HC.C12.header_without_secret",
+                  "HC.C12.readonly_forever", "HC.C12.ro_crash_atomic", "HC.C12.ro_torn_atomic"],
         bridge_modules=["HC.Bridge.Oplog"], bridging=OPLOG_BRIDGE,
         runs=_c12_runs,
-        partial="proved on the model: the NotWritable gate, idempotence, and the exact storage operations of make_read_only (both header slots rewritten as full zero-padded slots from the secret-free header, entries truncated in between). That the resulting oplog FILE is exactly the two slots (File algebra) and the crash cases are covered by the run: raw bytes of all four stores are scanned for the seed, its halves and the expanded secret; every crash point inside the call is reopened.",
+        partial="proved on the model: make_read_only is one of the calls of the refinement theorems (C01.full_refinement, C02.crash_refinement, C07.torn_atomic): in every history it answers like the abstract log, a read-only log stays read-only across reopens and crash recoveries (readonly_forever), and a crash or torn write at any of its storage operations leaves the writable log or the same log read-only (ro_crash_atomic, ro_torn_atomic); the NotWritable gate, idempotence, and the exact storage operations of make_read_only (both header slots rewritten as full zero-padded slots from the secret-free header, entries truncated in between). That the resulting oplog FILE is exactly the two slots (File algebra) and the crash cases are covered by the run: raw bytes of all four stores are scanned for the seed, its halves and the expanded secret; every crash point inside the call is reopened.",
         rule="histories with 0..10 prior operations (all four header-bit parities, 0-3 unflushed entries) followed by make_read_only, all crash points inside the call, secret scan of the raw stores before/after, append refused, second call false, reopen read-only with the stored public key, key pair + open rejected, further operations; replicas (read-only from the start)",
         trusted=LOG_TRUSTED,
     ),
@@ -223,7 +224,7 @@ PROPS = {
                   "HC.C01.entry_reopen", "HC.C01.header_reopen", "HC.C01.frame_reopen", "HC.C01.held_after", "HC.C01.refines_partial"],
         bridge_modules=["HC.Bridge.Oplog", "HC.Bridge.Stores"], bridging=OPLOG_BRIDGE + STORES_BRIDGE,
         runs=_c01_runs,
-        partial="proved on the model in full (full_refinement): for every history of append_batch/clear/get/has/info calls and close-and-reopen steps from a freshly created core, every observation equals the abstract block list + held set; the flush cadence, the oplog commit protocol and its byte layout, the flushed tree/bitfield stores and the replay on open are all inside the theorem. Hypotheses: 32-byte non-zero digests, 64-byte signatures, 32-byte key and seed, fewer than 2^62 blocks, batches below 2^20 blocks, clear bounds below 2^64. What ties the model to the Rust is the correspondence run (the label partial refers to that tie and to the hypotheses, not to an unproved part of the statement)",
+        partial="proved on the model in full (full_refinement): for every history of append_batch/clear/get/has/info/make_read_only calls and close-and-reopen steps from a freshly created core, every observation equals the abstract block list + held set; the flush cadence, the oplog commit protocol and its byte layout, the flushed tree/bitfield stores and the replay on open are all inside the theorem. Hypotheses: 32-byte non-zero digests, 64-byte signatures, 32-byte key and seed, fewer than 2^62 blocks, batches below 2^20 blocks, clear bounds below 2^64. What ties the model to the Rust is the correspondence run (the label partial refers to that tie and to the hypotheses, not to an unproved part of the statement)",
         rule="histories over {append, batch 0..5, clear(start<end,start<len,end maybe beyond), get/has of any u64, info, reopen, probe}: bounded-exhaustive over a 10-symbol alphabet (full probe after each step), seeded-random long ones (blocks 0 B..70 KB), large cores crossing 8192/32768/65536; every observation and every storage operation (store, offset, bytes) is compared with the Lean model and with the harness's own list model. distinct = distinct full transcripts; non-trivial = at least 3 operations",
         trusted=LOG_TRUSTED, assumptions=["clear is called with start < end and start < length (the property's quantifier)",
                                           "live_refinement: hash functions return 32-byte digests that are never all zero (HashWF; an all-zero digest is the crate's 'blank' node) and lengths/byte totals stay below 2^64"],
@@ -233,7 +234,7 @@ PROPS = {
                   "HC.C02.reopen_exact", "HC.C02.append_commit", "HC.C02.flush_atomic", "HC.C02.fresh", "HC.C02.reachable", "HC.C02.crash_atomic_partial"],
         bridge_modules=["HC.Bridge.Oplog", "HC.Bridge.Stores"], bridging=OPLOG_BRIDGE + STORES_BRIDGE,
         runs=_c02_runs,
-        partial="proved on the model (crash_atomic): after any history of calls and reopen steps of a writer core, for any further append_batch/clear/read and ANY prefix of its storage operations, Hypercore::new on the stores succeeds and the recovered core represents the log before the call or the log after it (length, byte length, has, get, exact contiguous length, writability), stays usable (crash_then_continue), and acknowledged calls stay applied (acknowledged_stays); crash points inside a flush (bitfield pages / tree nodes partly written, header written but entries not yet truncated) are inside the theorem. crash_refinement: histories in which calls complete, the store is closed and reopened, or the process dies after any number of storage operations of a call and the store is reopened, any number of times in any order, are observationally the abstract log in which each crash leaves the log before or after the interrupted call (recovery re-establishes the ghost invariant; Oplog::open cuts off stale entries - repo fix a6a0579). Not proved (validated by reopening every journal prefix on the real crate and on the model, including repeated crashes): proof applications on a replica, make_read_only; same hypotheses as C01.full_refinement.",
+        partial="proved on the model (crash_atomic): after any history of calls and reopen steps of a writer core, for any further append_batch/clear/make_read_only/read and ANY prefix of its storage operations, Hypercore::new on the stores succeeds and the recovered core represents the log before the call or the log after it (length, byte length, has, get, exact contiguous length, writability), stays usable (crash_then_continue), and acknowledged calls stay applied (acknowledged_stays); crash points inside a flush (bitfield pages / tree nodes partly written, header written but entries not yet truncated) are inside the theorem. crash_refinement: histories in which calls complete, the store is closed and reopened, or the process dies after any number of storage operations of a call and the store is reopened, any number of times in any order, are observationally the abstract log in which each crash leaves the log before or after the interrupted call (recovery re-establishes the ghost invariant; Oplog::open cuts off stale entries - repo fix a6a0579). Not proved (validated by reopening every journal prefix on the real crate and on the model, including repeated crashes): proof applications on a replica; same hypotheses as C01.full_refinement.",
         rule="for every history, after every mutating call, the storage is rebuilt from every prefix of that call's journal of write/delete/truncate operations, reopened with open(true), probed, and compared with the list model's before and after states and with the Lean model's prediction; some recovered cores are continued, and 'double' histories crash again inside the next call (make_read_only, append, batch, clear) on the recovered core, preferring the windows inside a flush. distinct = distinct transcripts",
         trusted=LOG_TRUSTED, assumptions=["each storage operation is atomic and persisted in issue order"],
     ),
@@ -241,7 +242,7 @@ PROPS = {
         theorems=["HC.C07.torn_atomic", "HC.C07.torn_atomic_from", "HC.C07.torn_then_continue", "HC.C07.torn_entry_ignored", "HC.C07.readEntries_stops", "HC.C07.torn_header_falls_back"],
         bridge_modules=["HC.Bridge.Oplog"], bridging=OPLOG_BRIDGE,
         runs=_c07_runs,
-        partial="proved on the model (torn_atomic): after any history of calls and reopen steps of a writer core, for any further append_batch/clear/read, any storage operation k of it and any number t of bytes of that write that arrive, Hypercore::new succeeds and the recovered core represents the log before or after the call and stays usable; torn data, bitfield-page, tree-node and log-entry writes need no assumption, a torn header write assumes that the checksum rejects the half-written slot (CrcDetects, evaluated by the harness on every torn state it generates). Not proved (run only): torn writes of proof applications on a replica and of make_read_only; a second crash after recovery from a torn bitfield page (the store's size is then not a multiple of the page size until the page is rewritten).",
+        partial="proved on the model (torn_atomic): after any history of calls and reopen steps of a writer core, for any further append_batch/clear/make_read_only/read, any storage operation k of it and any number t of bytes of that write that arrive, Hypercore::new succeeds and the recovered core represents the log before or after the call and stays usable; torn data, bitfield-page, tree-node and log-entry writes need no assumption, a torn header write assumes that the checksum rejects the half-written slot (CrcDetects, evaluated by the harness on every torn state it generates). Not proved (run only): torn writes of proof applications on a replica; a second crash after recovery from a torn bitfield page (the store's size is then not a multiple of the page size until the page is rewritten).",
         rule="as C02, and for every crash point whose next operation is a write: every proper byte prefix (writes <= 64 bytes) or cuts at 1,3,4,5,7,8,9,12, half, last byte, every 512 bytes and 4 seeded cuts",
         trusted=LOG_TRUSTED, assumptions=["CrcDetects: a torn header slot does not pass the checksum unless it equals the old or the new frame"],
     ),
